@@ -216,6 +216,19 @@ func runProperty(w *World, o *checkOpts) *Report {
 		}(j)
 	}
 	wg.Wait()
+	// second chance: obligations that timed out while the machine was loaded are retried alone
+	for _, j := range jobs {
+		ob := j.o
+		if ob.Cover || ob.Result.Status == "unsat" || ob.Result.Status == "sat" {
+			continue
+		}
+		r2 := solve(ob.Result.File, quick*2, full*3, "unsat")
+		r2.Tried = append(ob.Result.Tried, r2.Tried...)
+		if r2.Status == "unsat" || r2.Status == "sat" {
+			r2.Tried = append(r2.Tried, "decided-on-retry")
+			ob.Result = r2
+		}
+	}
 	// replay: candidate inputs of failed obligations are run against the real code
 	replays := 0
 	seenInput := map[string]bool{}
